@@ -1,5 +1,7 @@
 import Rfsm.Audit
 import Rfsm.Proofs.HistoryLemmas
+import Rfsm.Proofs.HistoryInv
+import Rfsm.Props.C01
 /-!
 # C06 — History states restore exactly what was active when the parent was left
 
@@ -108,8 +110,64 @@ theorem C06_no_default_content (d : Doc) (acc : EntryAcc) (sid : Nat)
   simp only [hc, List.append_nil]
 #assert_axioms C06_no_default_content
 
+/-- what a history table may contain for history state `h`: members are proper states (never
+    history pseudo-states) that were active together; for a deep history they are atomic descendants
+    of `h`'s parent, for a shallow one children of `h`'s parent -/
+def GoodValue (d : Doc) (h : Nat) (vs : List Nat) : Prop :=
+  ∀ v ∈ vs, isHistoryState d v = false ∧
+    (if (getState d h).histType = 2 then
+      isAtomicStateId d v = true ∧ isDescendant d v (parentOf d h) = true
+     else parentOf d v = parentOf d h)
+
+/-- **Invariant of every reachable session of every conformant document**: each stored history
+    value consists of non-history states below the history state's parent (children for shallow,
+    atomic descendants for deep history).  This is the "exactly what was active" half of the
+    statement lifted from one exit (`C06_record`) to whole runs: whatever a later transition finds in
+    the table was recorded by the last exit of the owner and has this shape. -/
+theorem C06_stored_values (env : Env σ) (d : Doc) (hc : conformantB d = true) (s : Sess σ)
+    (hr : Reach env d s) : ∀ h vs, tget s.hv h = some vs → GoodValue d h vs := by
+  induction hr with
+  | start s0 hcfg hhv =>
+    intro h vs hv
+    rw [(enterStates_spec env d s0 (rootInit d)).2.1, hhv] at hv
+    simp [tget] at hv
+  | same _ _ hhv ih => intro h vs hv; rw [hhv] at hv; exact ih h vs hv
+  | @micro s ev hreach ih =>
+    intro h vs hv
+    have hsc := select_sameCore env d ev s
+    have hnoh := (C01_no_duplicates_no_history env d hc s hreach).2
+    generalize (select env d ev s).1 = s1 at hsc hv
+    generalize (select env d ev s).2 = ts at hv
+    have hk := executeTransitionContent_kept env d ts (exitStates env d s1 ts)
+    have hn := enterStates_spec env d (executeTransitionContent env d (exitStates env d s1 ts) ts) ts
+    unfold microstep at hv
+    rw [hn.2.1, hk.hv] at hv
+    rcases exitStates_hv_cases env d hc s1 ts h with ⟨_, _, hrec⟩ | hkeep
+    · rw [hrec] at hv
+      have hvs : vs = histVal d s1.cfg (parentOf d h) h := by simpa using hv.symm
+      subst hvs
+      intro v hvmem
+      have hm := (C06_recorded_value d s1.cfg (parentOf d h) h v).1 hvmem
+      refine ⟨hnoh v (by rw [← hsc.1]; exact hm.1), ?_⟩
+      exact hm.2
+    · rw [hkeep, hsc.2.1] at hv
+      exact ih h vs hv
+#assert_axioms C06_stored_values
+
+/-- (restore, whole runs) in every reachable session of a conformant document, a transition that
+    targets a history state with a stored value enters every stored state — `C06_restore` without
+    its side condition, which `C06_stored_values` discharges -/
+theorem C06_restore_reachable (env : Env σ) (d : Doc) (hc : conformantB d = true) (s : Sess σ)
+    (hr : Reach env d s) (f h : Nat) (acc : EntryAcc) (vs : List Nat)
+    (hh : isHistoryState d h = true) (hval : tget s.hv h = some vs) :
+    ∀ v ∈ vs, v ∈ (addDesc d s.hv (f + 2) h acc).toEnter :=
+  C06_restore d s.hv f h acc vs hh hval (fun v hv => (C06_stored_values env d hc s hr h vs hval v hv).1)
+#assert_axioms C06_restore_reachable
+
 /-- What is proved of the statement: record (exact), restore (every recorded state is entered;
     the step equation shows the default is not used), default (used iff no value; content position).
+    For whole runs: `C06_stored_values` (every stored value of every reachable session consists of
+    non-history children / atomic descendants of the history's parent) and `C06_restore_reachable`.
     **Missing** for the exact characterisation "re-enters exactly the recorded states together with
     the ancestors and parallel siblings needed for a legal configuration": the completeness half
     (nothing else is entered) — it shares the tree lemmas missing for `C01_full`. -/
@@ -142,5 +200,18 @@ example : (computeEntrySet exDoc2 [(5, [4])] [13]).toEnter = [4, 2] := by decide
 -- without a value the default transition is followed and its content registered for the parent
 example : (computeEntrySet exDoc2 [] [13]).toEnter = [3, 2] ∧
           (computeEntrySet exDoc2 [] [13]).histContent = [(2, 7)] := by decide
+
+-- hypotheses of `C06_stored_values` / `C06_restore_reachable` on a concrete run: exDoc2 is conformant,
+-- and after start-up and event "x" (transition 10 leaves state 2 while 3 is active) the reachable
+-- session stores [3] for history state 5
+example : conformantB exDoc2 = true := by decide +kernel
+example :
+    let s := startSession unitEnv exDoc2 ()
+    let s2 := microstep unitEnv exDoc2 (select unitEnv exDoc2 (some [120]) s).1 (select unitEnv exDoc2 (some [120]) s).2
+    tget s2.hv 5 = some [3] ∧ s2.cfg = [1, 6] := by decide +kernel
+example : Reach unitEnv exDoc2
+    (microstep unitEnv exDoc2 (select unitEnv exDoc2 (some [120]) (startSession unitEnv exDoc2 ())).1
+      (select unitEnv exDoc2 (some [120]) (startSession unitEnv exDoc2 ())).2) :=
+  Reach.micro _ (startSession_reach unitEnv exDoc2 ())
 
 end Rfsm.Interp
